@@ -781,3 +781,103 @@ package compose
 //@     modifies fresh()
 //@     invariant[fresh] cbs == nil || fresh(cbs)
 //@     invariant[undesignated_only] forall(i int :: 0 <= i && i < len(cbs) ==> exists(j int, m int :: 0 <= j && j < $i && len(opts[j].paths) == 0 && 0 <= m && m < len(opts[j].handler) && opts[j].handler[m] == cbs[i]))
+
+// ---------------------------------------------------------------------------------------------------
+// tool_node.go — ToolsNode (C17, C13)
+// ---------------------------------------------------------------------------------------------------
+
+//@ func newUnknownToolTask
+//@   props C17
+//@   ensures[fields] result.name == name && result.arg == arg && result.callID == callID && result.r != nil && result.meta != nil && result.err == nil
+
+//@ func newRunnablePacker
+//@   trusted builds the four-paradigm runnable from the supplied functions (C04)
+//@   ensures[nonnil] result != nil && fresh(result)
+
+//@ func (*ToolsNode).genToolCallTasks
+//@   props C17
+//@   requires tn != nil && tuple != nil && input != nil
+//@   requires[tables] tupleOK(tuple)
+//@   ensures[role] input.Role != "assistant" ==> result1 != nil
+//@   ensures[none] len(input.ToolCalls) == 0 ==> result1 != nil
+//@   ensures[len] result1 == nil ==> len(result0) == len(input.ToolCalls) && len(result0) > 0 && fresh(result0)
+//@   ensures[ids] result1 == nil ==> forall(i int :: 0 <= i && i < len(result0) ==> result0[i].callID == input.ToolCalls[i].ID && result0[i].arg == input.ToolCalls[i].Function.Arguments && result0[i].name == input.ToolCalls[i].Function.Name)
+//@   ensures[known_tool] result1 == nil ==> forall(i int :: 0 <= i && i < len(result0) && in(input.ToolCalls[i].Function.Name, tuple.indexes) ==> result0[i].r == tuple.rps[tuple.indexes[input.ToolCalls[i].Function.Name]] && result0[i].meta == tuple.meta[tuple.indexes[input.ToolCalls[i].Function.Name]])
+//@   ensures[unknown_tool] (exists(i int :: 0 <= i && i < len(input.ToolCalls) && !in(input.ToolCalls[i].Function.Name, tuple.indexes))) && tn.unknownToolHandler == nil && input.Role == "assistant" ==> result1 != nil
+//@   ensures[clean] result1 == nil ==> forall(i int :: 0 <= i && i < len(result0) ==> result0[i].err == nil)
+//@   loop 1:
+//@     modifies elems(toolCallTasks), fresh()
+//@     invariant[idx] 0 <= i && i <= n
+//@     invariant[ids] forall(j int :: 0 <= j && j < i ==> toolCallTasks[j].callID == input.ToolCalls[j].ID && toolCallTasks[j].arg == input.ToolCalls[j].Function.Arguments && toolCallTasks[j].name == input.ToolCalls[j].Function.Name)
+//@     invariant[known_tool] forall(j int :: 0 <= j && j < i && in(input.ToolCalls[j].Function.Name, tuple.indexes) ==> toolCallTasks[j].r == tuple.rps[tuple.indexes[input.ToolCalls[j].Function.Name]] && toolCallTasks[j].meta == tuple.meta[tuple.indexes[input.ToolCalls[j].Function.Name]])
+//@     invariant[all_known_or_handler] forall(j int :: 0 <= j && j < i ==> in(input.ToolCalls[j].Function.Name, tuple.indexes) || tn.unknownToolHandler != nil)
+//@     invariant[clean] forall(j int :: 0 <= j && j < n ==> toolCallTasks[j].err == nil)
+
+//@ func parallelRunToolCall
+//@   props C17 C13
+//@   requires run != nil && len(tasks) >= 1
+//@   modifies elemsField(tasks, "output"), elemsField(tasks, "sOutput"), elemsField(tasks, "err"), region("F|compose.toolCallTask|err"), region("GHOST|")
+//@   loop 1:
+//@     invariant[idx] 1 <= i
+//@   note the forked calls write their own task cell through the interior pointer &tasks[i] (disjoint cells; WaitGroup join); the engine does not track interior pointers, so the write set is declared here and is trusted
+
+//@ func parallelRunToolCall$1
+//@   props C13 C17
+//@   nopanic
+//@   requires t != nil && run != nil
+//@   modifies t.err, region("GHOST|")
+
+//@ func getToolsNodeOptions
+//@   props C17
+//@   requires forall(i int :: 0 <= i && i < len(opts) ==> opts[i] != nil)
+//@   ensures[nonnil] result != nil
+
+//@ spec tupleOK(t *toolsTuple) bool = t != nil && forall(k string :: in(k, t.indexes) ==> 0 <= t.indexes[k] && t.indexes[k] < len(t.rps) && t.indexes[k] < len(t.meta))
+
+//@ func convTools
+//@   props C17
+//@   requires forall(i int :: 0 <= i && i < len(tools) ==> tools[i] != nil)
+//@   ensures[tables] result1 == nil ==> tupleOK(result0) && fresh(result0)
+//@   loop 1:
+//@     modifies fields(ret), map(ret.indexes), elems(ret.meta), elems(ret.rps), fresh()
+//@     invariant[ret] ret != nil && fresh(ret) && ret.indexes != nil && fresh(ret.indexes) && len(ret.meta) == len(tools) && len(ret.rps) == len(tools) && fresh(ret.meta) && fresh(ret.rps)
+//@     invariant[tables] forall(k string :: in(k, ret.indexes) ==> 0 <= ret.indexes[k] && ret.indexes[k] < $i)
+
+//@ func parseExecutorInfoFromComponent
+//@   trusted reads optional Typer / Checker interfaces of the component
+//@   ensures[nonnil] result != nil && fresh(result)
+
+//@ func (*ToolsNode).Invoke
+//@   props C17
+//@   requires tn != nil && tupleOK(tn.tuple) && input != nil
+//@   requires forall(i int :: 0 <= i && i < len(opts) ==> opts[i] != nil)
+//@   requires forall(i int :: 0 <= i && i < len(opts) ==> true)
+//@   ensures[n_messages] result1 == nil ==> len(result0) == len(input.ToolCalls) && len(result0) > 0
+//@   ensures[ids_in_order] result1 == nil ==> forall(i int :: 0 <= i && i < len(result0) ==> result0[i] != nil && result0[i].ToolCallID == input.ToolCalls[i].ID && result0[i].Role == "tool")
+//@   ensures[role] input.Role != "assistant" ==> result1 != nil
+//@   at call convTools: assume forall(i int :: 0 <= i && i < len(opt.ToolList) ==> opt.ToolList[i] != nil)
+//@   loop 1:
+//@     modifies elems(output), fresh()
+//@     invariant[idx] 0 <= i && i <= n
+//@     invariant[ids_in_order] forall(j int :: 0 <= j && j < i ==> output[j] != nil && allocated(output[j]) && fresh(output[j]) && output[j].ToolCallID == input.ToolCalls[j].ID && output[j].Role == "tool")
+//@     invariant[no_err] forall(j int :: 0 <= j && j < i ==> tasks[j].err == nil)
+//@     invariant[out] len(output) == n && fresh(output)
+
+//@ func (*ToolsNode).Stream
+//@   props C17
+//@   requires tn != nil && tupleOK(tn.tuple) && input != nil
+//@   requires forall(i int :: 0 <= i && i < len(opts) ==> opts[i] != nil)
+//@   ensures[role] input.Role != "assistant" ==> result1 != nil
+//@   at call convTools: assume forall(i int :: 0 <= i && i < len(opt.ToolList) ==> opt.ToolList[i] != nil)
+//@   at call schema.MergeStreamReaders: assert[all_tasks_ok] len(sOutput) == len(input.ToolCalls) && forall(j int :: 0 <= j && j < n ==> tasks[j].err == nil)
+//@   loop 1:
+//@     modifies elems(sOutput), fresh()
+//@     invariant[idx] 0 <= i && i <= n
+//@     invariant[no_err] forall(j int :: 0 <= j && j < i ==> tasks[j].err == nil)
+//@     invariant[out] len(sOutput) == n && fresh(sOutput) && n == len(tasks) && n == len(input.ToolCalls)
+
+//@ func (*ToolsNode).Stream$1
+//@   props C17
+//@   requires n >= 1 && 0 <= index && index < n
+//@   ensures[shape] result1 == nil && len(result0) == n && result0[index] != nil && result0[index].ToolCallID == callID && result0[index].Content == s && result0[index].Role == "tool"
+//@   ensures[others_nil] forall(j int :: 0 <= j && j < n && j != index ==> result0[j] == nil)
